@@ -78,6 +78,7 @@ type server struct {
 	byNonce  map[string][]*obs
 	bySerial map[int64]*obs
 	waiters  map[string]chan struct{}
+	claimed  map[int64]int // filter record -> request whose list answer carried its marker
 	serial   atomic.Int64
 }
 
@@ -295,7 +296,7 @@ func stdEntries(prefix, open string) []entry {
 
 func newServer(kind, name string, fns []fnSpec, nmw, roleKey int) (*server, error) {
 	s := &server{kind: kind, name: name, fns: fns, nmw: nmw, roleKey: roleKey,
-		byNonce: map[string][]*obs{}, bySerial: map[int64]*obs{}, waiters: map[string]chan struct{}{},
+		byNonce: map[string][]*obs{}, bySerial: map[int64]*obs{}, waiters: map[string]chan struct{}{}, claimed: map[int64]int{},
 		tools: stdEntries("t", echoTool), prompts: stdEntries("p", openPrompt), resources: stdEntries("r", openResource)}
 	ks := map[int]bool{roleKey: true}
 	for _, f := range fns {
